@@ -29,7 +29,7 @@ ASSUMPTIONS = [
     "dtype equality for Parquet is asserted for bool/int/float/string/date/datetime columns",
 ]
 REACH = {"quick": {"fmt:pickle": 150, "fmt:npz": 150, "fmt:parquet": 150, "fmt:csv": 300, "fmt:json": 150, "fmt:lod-json": 80, "fmt:lod-csv": 80,
-                   "fmt:lod-pickle": 80, "suffix:.gz": 150, "suffix:.bz2": 150, "suffix:.xz": 150, "string-na-first": 100, "magic-checked": 300, "big-file": 3}}
+                   "fmt:lod-pickle": 80, "suffix:.gz": 150, "suffix:.bz2": 150, "suffix:.xz": 150, "string-na-first": 100, "magic-checked": 300, "big-file": 3, "lod-history": 60}}
 
 MAGIC = {".gz": b"\x1f\x8b", ".bz2": b"BZh", ".xz": b"\xfd7zXZ"}
 IO_STR = ["abc", "a,b", 'say "hi"', "line1\nline2", "semi;colon", "tab\there", "pipe|d", "ünï", "日本語", " lead", "trail ", "'single'",
@@ -93,6 +93,8 @@ def generate(rng, tier):
                     it[k] = rng.choice([None, True, 3, 2.5, "s", rng.choice(pool), [1, "x", None], {"n": {"m": [1.5]}}, -7, 10**20])
                 items.append(it)
         case["items"] = items
+        if rng.random() < 0.3:
+            case["history"] = rng.choice(["add", "delete", "append"])
         return case
     kinds = {"pickle": ["bool", "int", "float", "str", "lstr", "date", "datetime", "obool", "ustr", "timedelta", "float32", "int32", "obj"],
              "npz": ["bool", "int", "float", "str", "date", "datetime", "obool", "ustr", "timedelta", "float32"],
@@ -160,6 +162,27 @@ def execute(case):
         items = case["items"]
         res.sig = f"{fmt}|{suffix}|{sorted(opts.items())}|{len(items)}"
         data = di.ListOfDicts([dict(x) for x in items])
+        hist = case.get("history")
+        if hist and items:
+            # same-object history: write once, change the key set of the items in place, then do the judged write/read
+            try:
+                getattr(data, {"lod-json": "write_json", "lod-csv": "write_csv", "lod-pickle": "write_pickle"}[fmt])(path + ".first", **({} if fmt == "lod-pickle" else opts))
+                data.keys(); list(data.keys())
+            except Exception:
+                pass
+            if hist == "add":
+                for it in list.__iter__(data): it["zz_added"] = "v"
+                items = [dict(x, zz_added="v") for x in items]
+            elif hist == "delete":
+                k0 = list(items[0])[0]
+                if all(k0 in x for x in items) and len(items[0]) > 1:
+                    for it in list.__iter__(data): del it[k0]
+                    items = [{k: v for k, v in x.items() if k != k0} for x in items]
+            else:
+                extra = dict(items[-1])
+                list.append(data, di.ListOfDicts([extra])[0])
+                items = items + [extra]
+            res.cls("lod-history")
         try:
             if fmt == "lod-json":
                 data.write_json(path, **opts)
